@@ -539,14 +539,15 @@ def gen_tok_cases(seed, tier, consts):
         for L in range(0, maxlen + 1):
             for chars in itertools.product([A, B, X, Y] if L <= 4 else [A, X, B], repeat=L):
                 if func == 'wcstok_seq' and L > 4: continue
-                for dm_rel in ('fit', 'slack', 'unterm'):
-                    if dm_rel == 'unterm' and L == 0: continue
-                    for pattern in (('A',), ('AB',), ('A', 'B'), ('E',), ('AB', 'L16'), ('L17',)):
-                        if pattern in (('E',), ('AB', 'L16'), ('L17',)) and (L not in (2, 3) or dm_rel == 'slack'): continue
+                for dm_rel in ('fit', 'slack', 'unterm', 'unterm_slack'):
+                    if dm_rel.startswith('unterm') and L == 0: continue
+                    for pattern in (('A',), ('AB',), ('A', 'B'), ('E',), ('AB', 'L16'), ('L16',), ('L16', 'A'), ('L17',)):
+                        if pattern in (('E',), ('AB', 'L16'), ('L16',), ('L16', 'A'), ('L17',)) and (L not in (2, 3, 4) or dm_rel == 'slack'): continue
                         s = list(chars)
                         if dm_rel == 'fit': body = s + [0]; dmax = L + 1
                         elif dm_rel == 'slack': body = s + [0, X, A, 0x7f]; dmax = L + 4
-                        else: body = s; dmax = L                      # no terminator within dmax, flush against the guard page
+                        elif dm_rel == 'unterm': body = s; dmax = L   # no terminator within dmax, flush against the guard page
+                        else: body = s + [X, Y, 0x7f]; dmax = L       # no terminator within dmax, readable canaries behind it
                         ncalls = L + 4
                         seq = [pattern[i % len(pattern)] for i in range(ncalls)]
                         dl = b''
@@ -580,7 +581,10 @@ def check_C14(rep, scr, tier, seed):
             toks = [t[0] for t in trip]
             for (r, dm, p) in trip:
                 if p >= 0 and p + dm > m['dmax']: fails.append(('remaining-length', 'after a call *ptr offset %d + *dmaxp %d exceeds the original dmax %d' % (p, dm, m['dmax']))); break
-            if m['dm_rel'] != 'unterm':
+            if m['dm_rel'] == 'unterm_slack':
+                tail_b = fam_copy.dec(x.blocks[0][1], w)[m['dmax']:]; tail_a = fam_copy.dec(a.blocks[0], w)[m['dmax']:]
+                if tail_a != tail_b: fails.append(('write-past-dmax', 'unterminated string: elements beyond dmax changed from %s to %s' % (tail_b, tail_a)))
+            if not m['dm_rel'].startswith('unterm'):
                 ref, refbuf = tok_reference(m['chars'] + [0], m['sets'], m['dmax'], w)
                 want = [(-1 if t is None else t) for t in ref]
                 bad_delims = any(len(D) > consts['tok_delim_max'] for D in m['sets'])
